@@ -43,7 +43,21 @@ func vfDirected() map[string][][]byte {
 		line := append(append(append([]byte{}, l[:p]...), []byte(" --> ")...), l[p:]...)
 		srt29 = append(srt29, []byte("1\n"+string(line)+"\nx\n"))
 	}
+	// compound files whose header fields (version, sector shift, first directory sector) take every odd value: the
+	// class id is looked for at an offset computed from them
+	var oleHdr [][]byte
+	for _, size := range []int{512, 600, 4700} {
+		for _, major := range []byte{3, 4, 0, 0xFF} {
+			for _, shift := range [][]byte{{9, 0}, {12, 0}, {0, 0}, {15, 0}, {16, 0}, {31, 0}, {32, 0}, {62, 0}, {63, 0}, {64, 0}, {255, 0}, {0xFF, 0xFF}, {0, 0x80}} {
+				for _, sec := range [][]byte{{0, 0, 0, 0}, {1, 0, 0, 0}, {0xFF, 0xFF, 0xFF, 0xFF}, {0xFF, 0xFF, 0xFF, 0x7F}, {0, 0, 0x80, 0}, {0xFE, 0xFF, 0xFF, 0xFF}} {
+					h := vfAt(vfAt(vfAt(vfPad(ole, size), 26, major, 0), 30, shift...), 48, sec...)
+					oleHdr = append(oleHdr, h)
+				}
+			}
+		}
+	}
 	m := map[string][][]byte{
+		"Doc": oleHdr,
 		"CRX": {
 			crx(10, 8, "PK\x03\x04rest"), crx(10, 8, "PK\x03\x04"), crx(10, 8, "PK\x03"), crx(10, 8, ""), crx(10, 8, "XK\x03\x04"), crx(0, 0, "PK\x03\x04"),
 			crx(40, 20, "PK\x03\x04 and the archive goes on"), crx(40, 20, "not a zip"),
